@@ -41,7 +41,8 @@ VARIABLES rev, nonrev, names, kid, revs, cond, last, round, plan, method, checks
 vars == <<rev, nonrev, names, kid, revs, cond, last, round, plan, method, checks, policy, owncond, trace>>
 
 Last0 == [moved |-> {}, gated |-> {}, gateOk |-> TRUE, firstNeeding |-> {}, writes |-> 0, oldOk |-> TRUE, nonrevOk |-> TRUE, sync |-> FALSE]
-Perts == { [round |-> r, op |-> o, kid |-> c] : r \in 2..(Rounds - 1), o \in PertOps, c \in Kids }
+\* perturbations happen while the rollout is in flight (rounds 2 .. 2 + 2 n)
+Perts == { [round |-> r, op |-> o, kid |-> c] : r \in 2..(2 + 2 * Len(Order)), o \in PertOps, c \in Kids }
 \* canonical plans: perturbations ordered by round; kid only matters for delkid / stuck
 PlanOK(p) == /\ \A i \in DOMAIN p : p[i].op # "delkid" => p[i].kid = Order[1]
              /\ \A i, j \in DOMAIN p : i < j => p[i].round <= p[j].round
